@@ -33,4 +33,107 @@ PROPS = {
     },
 }
 
+CLASSES_T = [
+    'AdditionOperator', 'CompositionOperator', 'TransposeOperator', 'IdentityOperator', 'HomothetyOperator',
+    'BroadcastDiagonalOperator', 'DiagonalOperator', 'DiagonalInverseOperator', 'DenseBlockDiagonalOperator',
+    'IndexOperator', 'PackOperator', 'MoveAxisOperator', 'RavelOperator', 'ReshapeOperator',
+    'ReshapeTransposeOperator', 'BlockRowOperator', 'BlockDiagonalOperator', 'BlockColumnOperator',
+    'SymmetricBandToeplitzOperator', 'QURotationOperator', 'QURotationTransposeOperator', 'HWPOperator',
+    'LinearPolarizerOperator', 'ToastObservationMatrixOperator', 'ToastObservationMatrixTransposeOperator',
+]
+AS_MATRIX_IMPLS = ['AbstractLinearOperator', 'AdditionOperator', 'AbstractLazyInverseOperator', 'IdentityOperator',
+                   'HomothetyOperator', 'DiagonalOperator', 'BlockRowOperator', 'BlockDiagonalOperator',
+                   'BlockColumnOperator', 'AbstractRavelOrReshapeOperator', 'SymmetricBandToeplitzOperator']
+
+PROPS['C03'] = {
+    'modes': [(0, 8), (1, 8)],
+    'budget': {'quick': 60, 'thorough': 400},
+    'deciding': {'C03.transpose': (3000, 30000), 'C03.bilinear': (500, 5000)},
+    'require_hist': {'quick': {'C03.transpose.class': CLASSES_T}, 'thorough': {'C03.transpose.class': CLASSES_T}},
+    'rule': 'cases = seeded atoms of every concrete class (every parameter form of the generator) and random composite '
+            'expressions; each is transposed, transposed back (and sometimes a third time) with every nested transpose() '
+            'call judged: structures swapped and reference dense matrix equal to the transposed reference dense matrix of '
+            'the operand; plus <Ax,y>=<x,A.T y> on random vectors through furax.tree.dot. case key = (expression '
+            'skeleton, parameter form, structure kind); non-trivial = dense matrix is not a multiple of the identity',
+    'assumptions': COMMON_ASSUMPTIONS + ['transposes of the iterative-solver inverse are excluded, as the property states'],
+    'technique': 'runtime monitor on every transpose() (hand-written, decorator-installed and derived) with a dense adjoint oracle',
+    'level_text': 'exploration: every transpose() observed on thousands of generated operators of all 25 transposable classes and their composites is compared with the transposed reference matrix (all basis vectors, so all x and y by bilinearity); A.T.T judged the same way.',
+    'level_note': 'trusts jax/XLA numerics and the reference densifier; sampled operator space, sizes <= 24',
+}
+PROPS['C04'] = {
+    'modes': [(0, 8), (1, 8)],
+    'budget': {'quick': 60, 'thorough': 400},
+    'deciding': {'C04.as_matrix': (1500, 15000), 'C04.linearity': (700, 7000), 'C04.matvec': (700, 7000)},
+    'require_hist': {'quick': {'C04.as_matrix.impl': AS_MATRIX_IMPLS}, 'thorough': {'C04.as_matrix.impl': AS_MATRIX_IMPLS}},
+    'rule': 'cases = seeded atoms and composites; for each, as_matrix() (specialised override) and the generic '
+            'AbstractLinearOperator.as_matrix are called under the monitor and compared with mv on all basis vectors; '
+            'op(ax+by)=a op(x)+b op(y), op(0)=0, finite output and as_matrix()@x = op(x) are probed on random vectors. '
+            'case key = (skeleton, parameter form, structure kind); non-trivial = matrix not a multiple of the identity',
+    'assumptions': COMMON_ASSUMPTIONS,
+    'technique': 'runtime monitor on every as_matrix() implementation against mv on basis vectors; linearity probes',
+    'level_text': 'exploration: all 11 as_matrix implementations are observed on generated operators and compared with the reference dense form; linearity is probed (not proved) on random combinations.',
+    'level_note': 'linearity is sampled; it is what turns basis-vector agreement into agreement for all inputs',
+}
+
+PROPS['C05'] = {
+    'modes': [(0, 8), (1, 8)],
+    'budget': {'quick': 60, 'thorough': 400},
+    'deciding': {'C05.mv': (10000, 100000), 'C05.declared': (1500, 15000), 'C05.sizes': (3000, 30000)},
+    'require_hist': {'quick': {'C05.mv.mode': ['eager', 'traced'], 'C05.mv.class': CLASSES_T},
+                     'thorough': {'C05.mv.mode': ['eager', 'traced'], 'C05.mv.class': CLASSES_T + ['InverseOperator']}},
+    'rule': 'cases = seeded atoms and composites in both 64-bit modes (float32, float64 and mixed-dtype pytrees with x64 on); '
+            'every mv call - outermost and nested, eager, under eval_shape and under jit - is observed and the treedef, leaf '
+            'shapes and leaf dtypes of its result compared with out_structure() of the operator that produced it; declared '
+            'structures of every composite are compared with those implied by its parts, also for .T, .reduce(), .I; '
+            'in_size/out_size/promoted dtypes recomputed from the structures. case key = (skeleton, dtype layout, x64, '
+            'structure kind); non-trivial = out_structure is an override (not eval_shape of the same mv)',
+    'assumptions': COMMON_ASSUMPTIONS + ['operator parameters are generated no wider than the data dtype (the bound the property states)',
+                                         'weak_type differences are ignored when comparing an mv result with the declared structure'],
+    'technique': 'runtime monitor on every mv() (eager and traced) comparing the result structure with out_structure(); driver-side recomputation of implied structures',
+    'level_text': 'exploration: every mv observed (>10^4 per run, all 26 classes, eager and traced) returns the declared structure; composite structures equal those implied by parts; both 64-bit modes.',
+    'level_note': 'sampled operator space; float64-declared structures with x64 off are outside the domain (no JAX array can match them)',
+}
+
+PROPS['C06'] = {
+    'modes': [(0, 3, 'closed'), (0, 1, 'pinv'), (0, 1, 'refuse'), (0, 3, 'lazy'),
+              (1, 3, 'closed'), (1, 1, 'pinv'), (1, 1, 'refuse'), (1, 3, 'lazy')],
+    'budget': {'quick': 70, 'thorough': 420},
+    'deciding': {'C06.inverse': (1500, 12000), 'C06.roundtrip': (400, 3000), 'C06.lazy-solve': (40, 400),
+                 'C06.pinv-finite': (100, 800)},
+    'require_hist': {'quick': {'C06.inverse.kind': ['closed-form', 'singular', 'lazy', 'non-square-refused']},
+                     'thorough': {'C06.inverse.kind': ['closed-form', 'singular', 'lazy', 'non-square-refused'],
+                                  'C06.lazy.solver': ['CG-1e-3', 'CG-1e-5', 'CG-default', 'BiCGStab', 'GMRES', 'NormalCG', 'Cholesky', 'LU']}},
+    'rule': 'cases = (closed) scalars, diagonals on every axis form, identities, QU rotations and their transposes, axis '
+            'permutations and (nested) block-diagonals of those; (pinv) diagonals with zero entries; (refuse) non-square '
+            'operators; (lazy) SPD operators with condition number <= 50 inverted under 8 solver settings. Every inverse() '
+            'call - also nested ones - is judged: A.I A = I = A A.I on the reference dense forms (pseudo-inverse and '
+            'finiteness when singular), A.I.I = A, residual |A z - y| <= 10 (atol + rtol |y|) cond(A) for the configured '
+            'tolerances, as_matrix of the lazy inverse = matrix inverse. case key = (inverse kind, operand skeleton, solver, '
+            'structure kind); non-trivial = operand is not +-identity',
+    'assumptions': COMMON_ASSUMPTIONS + ['lazy inverses only for symmetric positive-definite operands with condition number <= 50',
+                                         'float32 solves are judged at max(configured tolerance, 3e-6)'],
+    'technique': 'runtime monitor on every inverse() with dense A.I A = I / pseudo-inverse oracle; residual oracle on solver-based inverses',
+    'level_text': 'exploration: every inverse() observed is checked on the dense forms; lazy inverses are applied through the real solver (jit) and the residual is compared with the configured tolerance; 8 solver settings.',
+    'level_note': 'convergence is claimed only for well-conditioned SPD operands, as the property states',
+}
+
+PROPS['C02'] = {
+    'modes': [(0, 6, 'tree'), (0, 2, 'reject'), (1, 6, 'tree'), (1, 2, 'reject')],
+    'budget': {'quick': 60, 'thorough': 400},
+    'deciding': {'C02.boundary': (1500, 15000), 'C02.dunder': (1500, 15000), 'C02.reject': (400, 4000)},
+    'require_hist': {'quick': {'C02.reject.how': ['shape', 'container', 'dtype', 'extra-leaf', 'rank']},
+                     'thorough': {'C02.reject.how': ['shape', 'container', 'dtype', 'extra-leaf', 'rank']}},
+    'rule': 'cases = (tree) expression trees of 1-3 arithmetic steps (@ on either side, +, -, k*, *k, /k, unary +-, construction '
+            'shortcuts I@B, B@I, scalar@scalar, A.I@A, A@A.I) over operand kinds atom/composition/sum/identity/scalar/closed-form '
+            'inverse/lazy inverse/block/random expression, scalars as Python, NumPy and JAX values; every dunder that answers is '
+            'judged, and the value of the Python expression is judged at the boundary, against NumPy arithmetic on the reference '
+            'dense forms; (reject) operands altered in shape, rank, container type, dtype or leaf count must raise ValueError, '
+            'non-scalar scalars ValueError, non-operators TypeError. case key = (operation trace or rejection form, operand '
+            'classes, structure kind); non-trivial = at least one arithmetic step / any rejection case',
+    'assumptions': COMMON_ASSUMPTIONS + ['NumPy float64 scalars multiplying float32 operators in 64-bit mode are not generated (parameters no wider than data)'],
+    'technique': 'runtime monitor on every arithmetic dunder plus client-boundary oracle (NumPy arithmetic on reference dense forms); rejection oracle computed from the operand structures',
+    'level_text': 'exploration: thousands of arithmetic expressions over all operand kinds and groupings are judged against matrix arithmetic; incompatible operands must be rejected.',
+    'level_note': 'sampled expression shapes; lazy inverses restricted to small SPD operands',
+}
+
 NOT_APPLICABLE: dict[str, str] = {}
